@@ -115,3 +115,7 @@ def file_protocol(inp):
             os.remove(os.path.join(d, f))
         os.rmdir(d)
     return {'violates': bool(bad), 'detail': bad[:5]}
+
+
+# thorough tier (bounded native sweeps): (function, inputs, obligation of the open finding it reproduces or None)
+THOROUGH = [('file_protocol', {}, None)]
